@@ -172,6 +172,10 @@ class ndpoly(numpy.ndarray):  # pylint: disable=invalid-name
 
         """
         exponents = numpy.asarray(exponents)
+        if exponents.dtype.kind in "fc" and numpy.any(
+            exponents != numpy.rint(exponents.real)
+        ):
+            raise ValueError(f"exponents must be integers; found {exponents.tolist()}")
         if exponents.size and (
             numpy.any(exponents < 0)
             or numpy.any(exponents > numpy.iinfo(numpy.uint32).max - cls.KEY_OFFSET)
